@@ -94,6 +94,7 @@ C10Component(a, b) ==
     ELSE IF a.recursive # b.recursive THEN "recursive-set"
     ELSE IF a.weights # b.weights THEN "weights"
     ELSE IF a.nodes # b.nodes THEN "symbols"
+    ELSE IF a.absdist # b.absdist THEN "abstract-distance-table"
     ELSE "other"
 C10Clause(ev) ==
     CASE ev.e = "grammar" -> IF ev.impl # Cfg.impl0 THEN "C10:grammar-changed" ELSE "ok"
